@@ -106,3 +106,27 @@ func TestC09Session(t *testing.T) {
 }
 
 var _ = kcp.IKCP_OVERHEAD
+
+// TestC09Entropy: the library's nonce sources never repeat a 16-byte value in
+// a long draw (a repeated nonce would make two datagrams of equal content
+// identical).
+func TestC09Entropy(t *testing.T) {
+	rec := hx.NewRecorder(t)
+	n := hx.EnvInt("C09_ENTROPY_DRAWS", 1<<18)
+	for name, src := range map[string]interface{ Read([]byte) (int, error) }{"aes": kcp.NewEntropyAES(), "chacha8": kcp.NewEntropyChacha8(), "default": kcp.NewEntropy()} {
+		seen := make(map[[16]byte]struct{}, n)
+		var b [16]byte
+		for i := 0; i < n; i++ {
+			if k, err := src.Read(b[:]); err != nil || k != 16 {
+				t.Fatalf("entropy %s: Read returned %d, %v", name, k, err)
+			}
+			if _, dup := seen[b]; dup {
+				hx.Fail(t, map[string]any{"source": name, "draw": i}, "C09: entropy source %s repeated the 16-byte value %x at draw %d", name, b, i)
+			}
+			seen[b] = struct{}{}
+		}
+		rec.Bulk(int64(n), int64(n))
+	}
+	rec.Class("nonce_draws", int64(3*n))
+	rec.Sample(map[string]any{"sources": []string{"NewEntropyAES", "NewEntropyChacha8", "NewEntropy"}, "draws_each": n, "bytes_per_draw": 16})
+}
